@@ -141,6 +141,18 @@ theorem evIn_check {env : Env} {c : Expr} {a : Stmt} (hc : evalV G env c = some 
     EvIn P G O 2 env (.ite c a .skip) env .norm :=
   EvIn.ite hc rfl (EvIn.skip _)
 
+/-- the first byte of a 16-byte array, as the bounds check `&t[0]` reads it into the blank variable -/
+def hdV (t : Bytes) : Val := .int (Int.ofNat (t.headD 0).toNat)
+
+/-- Go's bounds check of a pointer argument `&t[0]` of an assembly routine: `_ = t[0]` on a 16-byte array -/
+theorem evIn_ptr {env : Env} {x : Nat} {t : Bytes} (hx : env x = bytesV t) (ht : t.length = 16) :
+    EvIn P G O 1 env (.assign 9 [] (.idxc (.var x) 0)) (env.set 9 (hdV t)) .norm := by
+  refine EvIn.assign ?_
+  rw [evalV_idxc, evalV_var, hx]
+  cases t with
+  | nil => simp at ht
+  | cons a as => simp [bytesV, hdV]
+
 /-- the frame record and the leaf call `xor16(&t[0], &t[0], &m[0])` -/
 theorem evIn_frame {env : Env} {E : Bytes → Bytes} {rk : Val} (hL : LeafOk O E rk) (k : Int) :
     EvIn P G O 1 env (.ext [] 0 true [(.lit k)]) env .norm := by
@@ -189,6 +201,9 @@ def sealStmts : List Stmt := [
     .assign 19 [] (.slice (.var 16) (.var 17) (.len (.var 16))),
     .call [13] 3 [(.var 0), (.var 1), (.var 2), (.var 3), (.var 10), (.var 13), (.slice (.var 19) (.lit 0) (.len (.var 6)))],
     .call [13] 4 [(.var 0), (.var 1), (.var 2), (.var 3), (.var 10), (.var 13), (.op1 (.conv .u64) (.len (.var 7))), (.op1 (.conv .u64) (.len (.var 6)))],
+    .assign 9 [] (.idxc (.var 13) 0),
+    .assign 9 [] (.idxc (.var 13) 0),
+    .assign 9 [] (.idxc (.var 11) 0),
     .ext [] 0 true [(.lit 9)],
     .ext [13] 9 false [(.var 13), (.var 13), (.var 11)],
     .assign 20 [] (.slice (.var 16) (.var 17) (.len (.var 16))),
@@ -256,7 +271,10 @@ theorem seal_body_ok (hL : LeafOk O E rk) (hC : GlueCallees P G O E c rk ns ts F
   let e14 := e13.set 19 (bytesV O1)
   let e15 := e14.set 13 (bytesV (t2B E aad CT))
   let e16 := e15.set 13 (bytesV (t3B E aad CT))
-  let e17 := e16.set 13 (bytesV TG)
+  let e16a := e16.set 9 (hdV (t3B E aad CT))
+  let e16b := e16a.set 9 (hdV (t3B E aad CT))
+  let e16c := e16b.set 9 (hdV (tmB E nonce))
+  let e17 := e16c.set 13 (bytesV TG)
   let e18 := e17.set 20 (bytesV O1)
   let e19 := e18.set 21 (bytesV (TG.take ts))
   let e20 := e19.set 22 (.int (ts : Int))
@@ -349,8 +367,14 @@ theorem seal_body_ok (hL : LeafOk O E rk) (hC : GlueCallees P G O E c rk ns ts F
     simp only [evalVs_cons, evalVs_nil, evalV_var, q6, q7]
     simp [e15, e14, e13, e12, e11, e10, e9, e8, e7, e6, e5, e4, e3, e2, e1, e0, Env.set, Env.ofList, glueArgs, recv]
   -- the mask
-  have c17 : EvIn P G O 1 e16 (.ext [] 0 true [(.lit 9)]) e16 .norm := evIn_frame hL 9
-  have c18 : EvIn P G O 1 e16 (.ext [13] 9 false [(.var 13), (.var 13), (.var 11)]) e17 .norm :=
+  have c17a : EvIn P G O 1 e16 (.assign 9 [] (.idxc (.var 13) 0)) e16a .norm :=
+    evIn_ptr (t := t3B E aad CT) rfl (t3B_length _ _ _)
+  have c17b : EvIn P G O 1 e16a (.assign 9 [] (.idxc (.var 13) 0)) e16b .norm :=
+    evIn_ptr (t := t3B E aad CT) rfl (t3B_length _ _ _)
+  have c17c : EvIn P G O 1 e16b (.assign 9 [] (.idxc (.var 11) 0)) e16c .norm :=
+    evIn_ptr (t := tmB E nonce) rfl (hE _)
+  have c17 : EvIn P G O 1 e16c (.ext [] 0 true [(.lit 9)]) e16c .norm := evIn_frame hL 9
+  have c18 : EvIn P G O 1 e16c (.ext [13] 9 false [(.var 13), (.var 13), (.var 11)]) e17 .norm :=
     evIn_xor16 hL (t := t3B E aad CT) (m := tmB E nonce) rfl rfl (t3B_length _ _ _) (hE _)
   -- copy(out[len(plaintext):], tag[:tagSize])
   have c19 : EvIn P G O 1 e17 (.assign 20 [] (.slice (.var 16) (.var 17) (.len (.var 16)))) e18 .norm := by
@@ -391,13 +415,13 @@ theorem seal_body_ok (hL : LeafOk O E rk) (hC : GlueCallees P G O E c rk ns ts F
     rw [evalV_catB p1 (evalV_catB p2 (evalV_catB p3 p4)), List.append_nil, ← seal_value hE]
   have sr : evalVs G e21 [(.var 4), (.var 16)] = some [bytesV dst, bytesV (dst ++ sealGCM E ts nonce pt aad)] := by
     simp only [evalVs_cons, evalVs_nil, evalV_var]
-    simp [e21, e20, e19, e18, e17, e16, e15, e14, e13, e12, e11, e10, e9, e8, Env.set]
+    simp [e21, e20, e19, e18, e17, e16c, e16b, e16a, e16, e15, e14, e13, e12, e11, e10, e9, e8, Env.set]
   refine ⟨e21, ?_⟩
   rw [fn_0_body]
   exact ((Pre.cons k1 (Pre.cons k2 (Pre.cons c1 (Pre.cons c2 (Pre.cons c3 (Pre.cons c4 (Pre.cons c5 (Pre.cons c6
     (Pre.cons c7 (Pre.cons c8 (Pre.cons c9 (Pre.cons c10 (Pre.cons c11 (Pre.cons c12 (Pre.cons c13 (Pre.cons c14
-    (Pre.cons c15 (Pre.cons c16 (Pre.cons c17 (Pre.cons c18 (Pre.cons c19 (Pre.cons c20 (Pre.cons c21 (Pre.cons c22
-    (Pre.nil _)))))))))))))))))))))))) _).1 _ _ _
+    (Pre.cons c15 (Pre.cons c16 (Pre.cons c17a (Pre.cons c17b (Pre.cons c17c (Pre.cons c17 (Pre.cons c18 (Pre.cons c19 (Pre.cons c20 (Pre.cons c21 (Pre.cons c22
+    (Pre.nil _))))))))))))))))))))))))))) _).1 _ _ _
     (EvIn.seq_stop (EvIn.ret sr) (by simp))).mono (by simp only [fuelGlue]; omega)
 
 /-- **Seal, as a `Computes` fact**, in any program whose function 0 is the generated Seal, modulo the callees.
@@ -485,6 +509,9 @@ def openB : List Stmt := [
     .call [14] 3 [(.var 0), (.var 1), (.var 2), (.var 3), (.var 11), (.var 14), (.var 7)],
     .call [14] 3 [(.var 0), (.var 1), (.var 2), (.var 3), (.var 11), (.var 14), (.var 6)],
     .call [14] 4 [(.var 0), (.var 1), (.var 2), (.var 3), (.var 11), (.var 14), (.op1 (.conv .u64) (.len (.var 7))), (.op1 (.conv .u64) (.len (.var 6)))],
+    .assign 9 [] (.idxc (.var 14) 0),
+    .assign 9 [] (.idxc (.var 14) 0),
+    .assign 9 [] (.idxc (.var 13) 0),
     .ext [] 0 true [(.lit 9)],
     .ext [14] 9 false [(.var 14), (.var 14), (.var 13)],
     .declass 15 0 (.op2 .ne (.cteq (.slice (.var 14) (.lit 0) (.var 3)) (.var 10)) (.lit 1))]
@@ -616,7 +643,10 @@ theorem open_body_main (hL : LeafOk O E rk) (hC : GlueCallees P G O E c rk ns ts
   let e10 := e9.set 14 (bytesV (t1B E aad))
   let e11 := e10.set 14 (bytesV (t2B E aad C))
   let e12 := e11.set 14 (bytesV (t3B E aad C))
-  let e13 := e12.set 14 (bytesV TG)
+  let e12a := e12.set 9 (hdV (t3B E aad C))
+  let e12b := e12a.set 9 (hdV (t3B E aad C))
+  let e12c := e12b.set 9 (hdV (tmB E nonce))
+  let e13 := e12c.set 14 (bytesV TG)
   let e14 := e13.set 15 (.int v)
   -- checks 3 and 4
   have k3 : EvIn P G O 2 e0 openI3 e0 .norm := by
@@ -686,8 +716,14 @@ theorem open_body_main (hL : LeafOk O E rk) (hC : GlueCallees P G O E c rk ns ts
       evalV_u64len (x := C) (evar rfl) (by rw [hCl]; omega)
     simp only [evalVs_cons, evalVs_nil, evalV_var, q6, q7]
     simp [e11, e10, e9, e8, e7, e6, e5, e4, e3, e2, e1, e0, Env.set, Env.ofList, glueArgs, recv]
-  have c13 : EvIn P G O 1 e12 (.ext [] 0 true [(.lit 9)]) e12 .norm := evIn_frame hL 9
-  have c14 : EvIn P G O 1 e12 (.ext [14] 9 false [(.var 14), (.var 14), (.var 13)]) e13 .norm :=
+  have c13a : EvIn P G O 1 e12 (.assign 9 [] (.idxc (.var 14) 0)) e12a .norm :=
+    evIn_ptr (t := t3B E aad C) rfl (t3B_length _ _ _)
+  have c13b : EvIn P G O 1 e12a (.assign 9 [] (.idxc (.var 14) 0)) e12b .norm :=
+    evIn_ptr (t := t3B E aad C) rfl (t3B_length _ _ _)
+  have c13c : EvIn P G O 1 e12b (.assign 9 [] (.idxc (.var 13) 0)) e12c .norm :=
+    evIn_ptr (t := tmB E nonce) rfl (hE _)
+  have c13 : EvIn P G O 1 e12c (.ext [] 0 true [(.lit 9)]) e12c .norm := evIn_frame hL 9
+  have c14 : EvIn P G O 1 e12c (.ext [14] 9 false [(.var 14), (.var 14), (.var 13)]) e13 .norm :=
     evIn_xor16 hL (t := t3B E aad C) (m := tmB E nonce) rfl rfl (t3B_length _ _ _) (hE _)
   -- the verdict
   have c15 : EvIn P G O 1 e13 (.declass 15 0 (.op2 .ne (.cteq (.slice (.var 14) (.lit 0) (.var 3)) (.var 10)) (.lit 1))) e14 .norm := by
@@ -696,10 +732,10 @@ theorem open_body_main (hL : LeafOk O E rk) (hC : GlueCallees P G O E c rk ns ts
       rw [evalV_sliceB (x := TG) (l := 0) (h := ts) (evar rfl) elit0 (evar rfl) (Nat.zero_le _) (by omega), take_head]
     rw [evalV_op2, evalV_cteq_bytes p (evar (show e13 10 = bytesV tagIn from rfl)), evalV_lit]
     by_cases hq : TG.take ts = tagIn <;> simp [hq, evalOp2, ofBool, v]
-  have preB : Pre P G O (2 * Fenc + Fcfc + 2 * Fghu + Fghf + 30) e0 openB e14 :=
+  have preB : Pre P G O (2 * Fenc + Fcfc + 2 * Fghu + Fghf + 36) e0 openB e14 :=
     (Pre.cons c1 (Pre.cons c2 (Pre.cons c3 (Pre.cons c4 (Pre.cons c5 (Pre.cons c6 (Pre.cons c7 (Pre.cons c8
-      (Pre.cons c9 (Pre.cons c10 (Pre.cons c11 (Pre.cons c12 (Pre.cons c13 (Pre.cons c14 (Pre.cons c15
-      (Pre.nil _)))))))))))))))).mono (by omega)
+      (Pre.cons c9 (Pre.cons c10 (Pre.cons c11 (Pre.cons c12 (Pre.cons c13a (Pre.cons c13b (Pre.cons c13c (Pre.cons c13 (Pre.cons c14 (Pre.cons c15
+      (Pre.nil _))))))))))))))))))).mono (by omega)
   have hval := open_value hE nonce ct aad ts (by omega)
   by_cases hq : TG.take ts = tagIn
   · -- the tags agree
@@ -718,7 +754,7 @@ theorem open_body_main (hL : LeafOk O E rk) (hC : GlueCallees P G O E c rk ns ts
       refine (hC.ensure dst C.length cap hcap hcap62 (by rw [hCl]; omega)).call ?_ rfl
       have q : evalV G e14 (.len (.var 6)) = some (.int (C.length : Int)) := evalV_lenB (evar rfl)
       simp only [evalVs_cons, evalVs_nil, evalV_var, q]
-      simp [e14, e13, e12, e11, e10, e9, e8, e7, e6, e5, e4, e3, e2, e1, e0, Env.set, Env.ofList, glueArgs, recv]
+      simp [e14, e13, e12c, e12b, e12a, e12, e11, e10, e9, e8, e7, e6, e5, e4, e3, e2, e1, e0, Env.set, Env.ofList, glueArgs, recv]
     have d2 : EvIn P G O 1 e15 (.assign 18 [] (.var 16)) e16 .norm := EvIn.assign (evar rfl)
     have d3 : EvIn P G O 1 e16 (.assign 19 [] (.var 17)) e17 .norm := EvIn.assign (evar rfl)
     have hF : Fcb C.length = Fcb (ct.length - ts) := by rw [hCl]
@@ -730,7 +766,7 @@ theorem open_body_main (hL : LeafOk O E rk) (hC : GlueCallees P G O E c rk ns ts
         rw [evalV_sliceB (x := R0) (l := dst.length) (h := R0.length) (evar rfl) (evar rfl) (evalV_lenB (evar rfl))
           (by simp [R0]) (Nat.le_refl _), drop_pre]
       simp only [evalVs_cons, evalVs_nil, evalV_var, q]
-      simp [e17, e16, e15, e14, e13, e12, e11, e10, e9, e8, e7, e6, e5, e4, e3, e2, e1, e0, Env.set, Env.ofList, glueArgs, recv]
+      simp [e17, e16, e15, e14, e13, e12c, e12b, e12a, e12, e11, e10, e9, e8, e7, e6, e5, e4, e3, e2, e1, e0, Env.set, Env.ofList, glueArgs, recv]
     have d5 : EvIn P G O 1 e18 (.assign 18 [] (.cat (.slice (.var 18) (.lit 0) (.var 19)) (.var 20))) e19 .norm := by
       refine EvIn.assign ?_
       rw [evalV_catB (evalV_sliceB (x := R0) (l := 0) (h := dst.length) (evar rfl) elit0 (evar rfl)
